@@ -453,7 +453,8 @@ def reject_cases():
     for nrep in (1, 2, 3):
         for kind in ('dup-name', 'nonstring-name', 'unsorted-idl', 'dup-idl', 'length-mismatch', 'length-mismatch-cancel', 'short', 'multi-ens',
                      'multi-ens-prefix', 'multi-ens-bare-prefix',
-                     'names-samples-mismatch', 'idl-count-mismatch', 'decreasing-range', 'bad-idl-type'):
+                     'names-samples-mismatch', 'idl-count-mismatch', 'decreasing-range', 'bad-idl-type', 'float-idl', 'float-idl-integer-valued',
+                     'complex-samples'):
             for pos in ('first', 'middle', 'last'):
                 for carrier in ('list', 'ndarray', 'range', 'uint32', 'uint8-list', 'int8'):
                     cases.append({'kind': 'reject', 'what': kind, 'nrep': nrep, 'pos': pos, 'carrier': carrier})
@@ -466,6 +467,9 @@ def reject_cases():
             cases.append({'kind': 'reject', 'what': kind, 'nrep': nrep})
     for kind in ('int8', 'int16', 'uint8', 'uint16'):
         cases.append({'kind': 'reject', 'what': 'wrap-' + kind})
+    # a covariance input that is named like a Monte-Carlo chain / ensemble of another operand, through every route
+    for kind in ('chain-name', 'ensemble-name', 'bare-ensemble-of-replicas'):
+        cases.append({'kind': 'reject', 'what': 'collide-' + kind})
     for kind in ('int-cov-mean', 'int-cov-means', 'int-samples', 'int-jackknife', 'int-bootstrap', 'float32-samples'):
         cases.append({'kind': 'reject', 'what': 'ctor-' + kind})
     for kind in ('jack-idl-too-long', 'jack-idl-too-short', 'jack-nonstring-name', 'jack-short', 'jack-unsorted-idl', 'boot-nonstring-name'):
@@ -504,11 +508,14 @@ def run_case(case):
         elif what == 'cov-negative-variance':
             # variances given as a number (dim 1) or as a 1d list (diagonal matrix): one of them negative
             S = -0.25 if dim == 1 else [0.1 * (i + 1) * (-1 if i == dim - 2 else 1) for i in range(dim)]
-        try:
-            r = pe.cov_Obs(means if len(means) > 1 else means[0], S, name)
-            acc.fail('reject:%s' % what, case, 'cov_Obs accepted %s (dim %d): %r' % (what, dim, r))
-        except Exception:
-            acc.ok((what, dim), True, 'rejected')
+        # ... without and with the optional gradient argument
+        nS = 1 if np.ndim(S) == 0 else len(S)
+        for gname, grad in (('no-grad', None), ('grad', [1.0 + 0.5 * i for i in range(nS)]), ('grad-array', np.array([[1.0 - 0.25 * i] for i in range(nS)]))):
+            try:
+                r = pe.cov_Obs(means if len(means) > 1 else means[0], S, name, **({} if grad is None else {'grad': grad}))
+                acc.fail('reject:%s' % what, dict(case, grad=gname), 'cov_Obs accepted %s (dim %d, %s): %r' % (what, dim, gname, r))
+            except Exception:
+                acc.ok((what, dim, gname), True, 'rejected')
         return acc
     if what.startswith('wrap-'):
         # configuration numbers in a narrow integer type whose differences wrap around: an unsorted list looks increasing
@@ -534,6 +541,31 @@ def run_case(case):
             acc.fail('reject:unsorted-idl:%s' % what, case, bad)
         else:
             acc.ok((what,), True, 'rejected')
+        acc.sample(case)
+        return acc
+    if what.startswith('collide-'):
+        r = alpha.rng('collide', what)
+        chain, cname = {'collide-chain-name': ('test', 'test'), 'collide-ensemble-name': ('A|r1', 'A'), 'collide-bare-ensemble-of-replicas': ('A|r2', 'A')}[what]
+        mk = lambda k: pe.Obs([r.normal(1.0 + 0.1 * k, 0.1, 12)], [chain])      # noqa: E731
+        a, a2 = mk(0), mk(1)
+        c = pe.cov_Obs(2.0, 0.01, cname)
+        other = pe.Obs([r.normal(0.5, 0.1, 9)], ['Z|r1'])
+        A = np.array([[a, a2], [a2, 3 * a]], dtype=object)
+        C = np.array([[c, 1.5 * c], [c * c, c]], dtype=object)
+        routes = {'a+c': lambda: a + c, 'c*a': lambda: c * a, 'a/c': lambda: a / c, '(other*c)+a': lambda: other * c + a, 'derived_observable': lambda: pe.derived_observable(lambda x, **kw: x[0] * x[1] + x[2], [a, c, other]),
+                  'linalg.matmul': lambda: pe.linalg.matmul(A, C), 'linalg.matmul(C, A)': lambda: pe.linalg.matmul(C, A), 'linalg.inv (mixed matrix)': lambda: pe.linalg.inv(np.array([[a, c], [c, 3 * a2]], dtype=object)),
+                  'linalg.det (mixed matrix)': lambda: pe.linalg.det(np.array([[a, c], [c, 3 * a2]], dtype=object)), 'CObs product': lambda: pe.CObs(a, a2) * pe.CObs(c, c)}
+        for rn, f in routes.items():
+            sub = dict(case, route=rn)
+            try:
+                res = f()
+            except Exception:
+                acc.ok((what, rn), True, 'rejected')
+                continue
+            first = np.ravel(np.asarray(res, dtype=object))[0]
+            first = first.real if isinstance(first, pe.CObs) else first
+            acc.fail('reject:name-collision', sub, 'covariance input %r combined with an observable on the chain %r through %s was accepted: names %s, chains with fluctuations %s' % (
+                cname, chain, rn, getattr(first, 'names', None), sorted(getattr(first, 'deltas', {}))))
         acc.sample(case)
         return acc
     if what.startswith('ctor-'):
@@ -662,6 +694,16 @@ def run_case(case):
         cfgs[which] = None
     elif what == 'bad-idl-type':
         cfgs[which] = 'tuple'
+    elif what == 'float-idl':
+        # configuration numbers that are not integers (one of them, at the position)
+        c = [float(v) for v in cfgs[which]]
+        i = ipos if ipos >= 0 else len(c) - 1
+        c[i] = c[i] + 0.5
+        cfgs[which] = ('float', c)
+    elif what == 'float-idl-integer-valued':
+        cfgs[which] = ('float', [float(v) for v in cfgs[which]])
+    elif what == 'complex-samples':
+        samples[which] = samples[which] + 1j * (samples[which] * 0 + (0.0 if pos == 'last' else 0.25))
     if not applicable:
         acc.skip('n/a')
         return acc
@@ -671,6 +713,8 @@ def run_case(case):
             return range(len(samples[i]), 0, -1)
         if c == 'tuple':
             return tuple(range(1, len(samples[i]) + 1))
+        if isinstance(c, tuple) and c[0] == 'float':
+            return np.array(c[1]) if carrier in ('ndarray', 'uint32', 'int8') else list(c[1])
         if carrier == 'ndarray':
             return np.array(c)
         if carrier == 'uint32':
@@ -691,7 +735,7 @@ def run_case(case):
     def valid_request():
         v = pe.Obs(valid_samples, valid_names, idl=[(np.array(c) if carrier == 'ndarray' else list(c)) for c in valid_cfgs])
         return compare.wf_any(v, pe) or (None if {n: list(v.idl[n]) for n in v.idl} == dict(zip(valid_names, valid_cfgs)) else 'configuration lists %s' % v.idl)
-    for with_idl in ((True, False) if what in ('dup-name', 'nonstring-name', 'short', 'multi-ens', 'multi-ens-prefix', 'multi-ens-bare-prefix', 'names-samples-mismatch') else (True,)):
+    for with_idl in ((True, False) if what in ('dup-name', 'nonstring-name', 'short', 'multi-ens', 'multi-ens-prefix', 'multi-ens-bare-prefix', 'names-samples-mismatch', 'complex-samples') else (True,)):
         idl = [carry(c, i) for i, c in enumerate(cfgs)] if with_idl else None
         pre = valid_request()
         if pre:
@@ -851,7 +895,7 @@ def main(tier, seed, jobs):
     rule = ('BFS to depth %d from %d initial register pairs over %d events per state (binary operators in both orders, scalar / '
             'ndarray partners of 8+1 kinds in both positions, **, 17 functions, reweight, correlate, merge_obs, gamma_method, '
             'least_squares, find_root, json/dobs/pickle/jackknife round trips, CObs construction and parts), states merged on '
-            'structure; plus the rejection product (14 malformed kinds incl. length mismatches that cancel in the total x 1..3 chains x 3 positions x 6 carriers incl. unsigned and narrow integers, 6 covariance '
+            'structure; plus the rejection product (17 malformed kinds incl. length mismatches that cancel in the total, non-integer configuration numbers, complex samples x 1..3 chains x 3 positions x 6 carriers incl. unsigned and narrow integers, 6 covariance '
             'kinds x 3 dimensions, 6 malformed import_jackknife / import_bootstrap requests x 3 lengths; 7 aliasing scenarios: the caller modifies idl lists / arrays, samples, names, covariance matrix, means, jackknife array after the constructor returned).  Non-trivial = every executed (not disabled) transition and every rejection request' % (
                 depth, len(init), len(all_events())))
     return engine.report('C04', tier, seed, LEVEL, tot, time.time() - t0, rule, ASSUMPTIONS, extra_cov=extra, exhaustive=True)
